@@ -95,7 +95,7 @@ Lemma wf_parts :
      (forall x, In x (map snd (lookup_sorted ty (nw_type_by_end nw))) <-> In x (type_nodes nw ty)) /\
      NoDup (map snd (lookup_sorted ty (nw_type_by_start nw))) /\
      NoDup (map snd (lookup_sorted ty (nw_type_by_end nw))) /\
-     (forall n, In n (type_nodes nw ty) -> nid_rank n = 0 -> 0 <= nid_idx n)).
+     (forall n, In n (type_nodes nw ty) -> (nid_rank n = 0 -> 0 <= nid_idx n) /\ nid_idx n <= 65535)).
 Proof.
   unfold net_wf_b in WF. rewrite !andb_true_iff in WF. destruct WF as [[[H1 H2] H3] H4].
   split; [|split; [exact H2|split; [exact H3|]]].
@@ -104,8 +104,9 @@ Proof.
     destruct H4 as [[[[[[K1 K2] S1] S2] N1] N2] I].
     split; [exact K1|]. split; [exact K2|]. split; [apply same_set_iff, S1|]. split; [apply same_set_iff, S2|].
     split; [apply nodup_nid_iff, N1|]. split; [apply nodup_nid_iff, N2|].
-    intros n Hn Hr. rewrite forallb_forall in I. specialize (I n Hn).
-    rewrite orb_true_iff, negb_true_iff in I. destruct I as [I|I]; [apply Z.eqb_neq in I; lia | lia].
+    intros n Hn. rewrite forallb_forall in I. specialize (I n Hn).
+    rewrite andb_true_iff, orb_true_iff, negb_true_iff in I. destruct I as [I J]. split; [|lia].
+    intros Hr. destruct I as [I|I]; [apply Z.eqb_neq in I; lia | lia].
 Qed.
 
 Lemma travel_nonneg a b t : loc_travel_time nw a b = Len t -> 0 <= t.
@@ -180,10 +181,10 @@ Proof.
     pose proof (keys_ok_in _ _ _ Ks Hin) as Hk. apply can_reach_le in Hc.
     unfold key_cmp; simpl. rewrite Hk. unfold dt_leb in Hc.
     destruct (dt_cmp (end_time nw n) (start_time nw (snd k))) eqn:E; simpl; auto; try discriminate.
-    specialize (Hidx _ Hm).
+    destruct (Hidx _ Hm) as [Hidx' _].
     unfold smallest, nid_cmp. simpl.
     destruct (snd k) eqn:Es; simpl; auto.
-    specialize (Hidx eq_refl). change (0 <= i) in Hidx.
+    specialize (Hidx' eq_refl). change (0 <= i) in Hidx'.
     destruct i; auto; lia.
 Qed.
 
@@ -197,21 +198,39 @@ Proof.
   apply filter_In in Hk'. rewrite <- E. apply in_map. tauto.
 Qed.
 
-(* What the enumeration of predecessors contains, exactly (the range bound is exclusive at equal times). *)
-Theorem predecessors_char ty n m :
+Theorem predecessors_exact ty n m :
   In ty (type_ids nw) ->
-  (In m (predecessors nw ty n) <->
-   In m (type_nodes nw ty) /\ can_reach nw m n = true /\ dt_ltb (end_time nw m) (start_time nw n) = true).
+  (In m (predecessors nw ty n) <-> In m (type_nodes nw ty) /\ can_reach nw m n = true).
 Proof.
   intros Hty. destruct wf_parts as (_ & _ & _ & Ht). destruct (Ht ty Hty) as (_ & Ke & _ & Se & _ & _ & Hidx).
   unfold predecessors. rewrite in_map_iff. split.
+  - intros (k & <- & Hk). apply filter_In in Hk. destruct Hk as [Hin Hc]. rewrite andb_true_iff in Hc.
+    split; [apply Se, in_map; auto | tauto].
+  - intros [Hm Hc]. apply Se in Hm as Hm'. apply in_map_iff in Hm'. destruct Hm' as (k & <- & Hin).
+    exists k; split; auto. apply filter_In; split; auto. rewrite Hc, andb_true_r.
+    pose proof (keys_ok_in _ _ _ Ke Hin) as Hk. apply can_reach_le in Hc.
+    unfold key_cmp; simpl. rewrite Hk. unfold dt_leb in Hc.
+    destruct (dt_cmp (end_time nw (snd k)) (start_time nw n)) eqn:E; simpl; auto; try discriminate.
+    destruct (Hidx _ Hm) as [_ Hidx'].
+    unfold largest, nid_cmp. destruct (snd k) eqn:Es; simpl; auto.
+    change (i <= 65535) in Hidx'. destruct (Z.compare_spec i 65535); auto; lia.
+Qed.
+
+(* What the enumeration contained before the repair (exclusive bound): ties were dropped. *)
+Theorem predecessors_prefix_char ty n m :
+  In ty (type_ids nw) ->
+  (In m (predecessors_prefix nw ty n) <->
+   In m (type_nodes nw ty) /\ can_reach nw m n = true /\ dt_ltb (end_time nw m) (start_time nw n) = true).
+Proof.
+  intros Hty. destruct wf_parts as (_ & _ & _ & Ht). destruct (Ht ty Hty) as (_ & Ke & _ & Se & _ & _ & Hidx).
+  unfold predecessors_prefix. rewrite in_map_iff. split.
   - intros (k & <- & Hk). apply filter_In in Hk. destruct Hk as [Hin Hc]. rewrite andb_true_iff in Hc.
     destruct Hc as [Hc1 Hc2]. assert (Hm : In (snd k) (type_nodes nw ty)) by (apply Se, in_map; auto).
     repeat split; auto.
     pose proof (keys_ok_in _ _ _ Ke Hin) as Hk. unfold key_cmp in Hc1. simpl in Hc1. rewrite Hk in Hc1.
     unfold dt_ltb. destruct (dt_cmp (end_time nw (snd k)) (start_time nw n)) eqn:E; simpl in Hc1; auto; try discriminate.
     exfalso. destruct (nid_cmp (snd k) smallest) eqn:En; try discriminate.
-    apply nid_cmp_smallest_not_lt in En. destruct En as [E1 E2]. specialize (Hidx _ Hm E2). lia.
+    apply nid_cmp_smallest_not_lt in En. destruct En as [E1 E2]. destruct (Hidx _ Hm) as [Hi _]. specialize (Hi E2). lia.
   - intros (Hm & Hc & Hlt). apply Se in Hm as Hm'. apply in_map_iff in Hm'. destruct Hm' as (k & <- & Hin).
     exists k; split; auto. apply filter_In; split; auto. rewrite Hc, andb_true_r.
     pose proof (keys_ok_in _ _ _ Ke Hin) as Hk. unfold key_cmp; simpl. rewrite Hk.
